@@ -17,6 +17,9 @@ mk dectomindec "decToMinDec prints 60" C20 "minutes-range"
 mk mailbox-atomic "mailbox writes message files in place" C11 "shape:function-exists"
 mk mailbox-mid "remote-chosen MIDs" C12 "shape:function-exists"
 mk mailbox-p2p "leaks private headers" C10 "stripped"
+mk agwpe-port "frames ignore the port" C13 "Frame/post"
+mk agwpe-readfull "arrives in more than one TCP segment" C13 "ReadFrom/"
+mk agwpe-read "agwpe Conn.Read panics" C13 "contract errors"
 mk ardop-ctrl "parseCtrlMsg panics" C14 "parseCtrlMsg/"
 mk ardop-frame "readFrameOfType panics" C14 "readFrameOfType/"
 mk ardop-read "tncConn.Read panics" C14 "Read/"
